@@ -298,6 +298,15 @@ pub fn exec_history(ctx: &Ctx, e: &Entry, raw: u128, ops: &[Op], mode: HistMode)
     let mut x = g("new_with_raw_value", || (e.from_raw)(raw))?;
     let mut m = raw;
     observe(ctx, &*x, m, "initial", &mut d)?;
+    if mode.rewrap_each_step {
+        if let Some(df) = e.defaults {
+            for dobj in g("DEFAULT", df)? {
+                if let Some(false) = g("derived-eq", || dobj.eq_rewrap())? {
+                    return fail("derived-eq-distinguishes-rewrap", "DEFAULT != new_with_raw_value(DEFAULT.raw_value()) under #[derive(PartialEq)]".to_string());
+                }
+            }
+        }
+    }
     let mut written = 0u128;
     let mut overlapping_rewrite = false;
     let mut fields_used: Vec<usize> = Vec::new();
@@ -357,6 +366,12 @@ pub fn exec_history(ctx: &Ctx, e: &Entry, raw: u128, ops: &[Op], mode: HistMode)
             let xr = g("raw_value", || x.raw())?;
             if yr != xr {
                 return fail("rewrap-raw", format!("step {}: x.raw_value() = {:#x}, re-wrapped = {:#x}", n, xr, yr));
+            }
+            if let Some(false) = g("derived-eq", || x.eq_rewrap())? {
+                return fail(
+                    "derived-eq-distinguishes-rewrap",
+                    format!("step {}: x != new_with_raw_value(x.raw_value()) under #[derive(PartialEq)] although raw_value() = {:#x} on both: state outside the {} declared bits", n, xr, ctx.layout.base_bits),
+                );
             }
             if xr > ctx.base_mask {
                 return fail("raw-above-width", format!("step {}: raw_value() = {:#x} exceeds {} bits", n, xr, ctx.layout.base_bits));
@@ -547,7 +562,62 @@ pub fn exec_const_case(c: &crate::ConstCase) -> Result<Info, Failure> {
     Ok(Info { nontrivial: c.nontrivial, digest: hash_u128(0, rv) })
 }
 
+/// Declarations whose write semantics the statements leave open (a list naming a bit twice): every
+/// in-domain operation must still be total, with_ and set_ must agree, and the observed results go into the
+/// digest that is compared across build profiles.
+pub fn exec_loose(_ctx: &Ctx, e: &Entry, case: &Case) -> Result<Info, Failure> {
+    let mut d = 0u64;
+    match case {
+        Case::Read { raw, f, i, .. } => {
+            let a = g("new_with_raw_value", || (e.from_raw)(raw.0))?;
+            let v = g("getter", || a.get(*f, *i))?;
+            d = mix64(d ^ val_hash(&v));
+        }
+        Case::Write { raw, f, i, v } => {
+            let a = g("new_with_raw_value", || (e.from_raw)(raw.0))?;
+            let b = g("with", || a.with(*f, *i, v.0))?;
+            let br = g("raw_value", || b.raw())?;
+            let mut c = g("new_with_raw_value", || (e.from_raw)(raw.0))?;
+            g("set", || c.set(*f, *i, v.0))?;
+            let cr = g("raw_value", || c.raw())?;
+            if cr != br {
+                return fail("set-differs-from-with", format!("raw {:#x}: set_ gives {:#x}, with_ gives {:#x}", raw.0, cr, br));
+            }
+            d = hash_u128(d, br);
+        }
+        Case::History { raw, ops } => {
+            let mut x = g("new_with_raw_value", || (e.from_raw)(raw.0))?;
+            for op in ops {
+                match op {
+                    Op::With { f, i, v } => x = g("with", || x.with(*f, *i, v.0))?,
+                    Op::Set { f, i, v } => g("set", || x.set(*f, *i, v.0))?,
+                    Op::Read { f, i } => {
+                        let v = g("getter", || x.get(*f, *i))?;
+                        d = mix64(d ^ val_hash(&v));
+                    }
+                    Op::Rewrap => x = g("rewrap", || x.rewrap())?,
+                    Op::Build { .. } => {}
+                }
+                d = hash_u128(d, g("raw_value", || x.raw())?);
+            }
+        }
+        Case::Raw { raw } => {
+            let a = g("new_with_raw_value", || (e.from_raw)(raw.0))?;
+            d = hash_u128(d, g("raw_value", || a.raw())?);
+        }
+        _ => {}
+    }
+    Ok(Info { nontrivial: true, digest: d })
+}
+
 pub fn exec_case(ctx: &Ctx, e: &Entry, prop: &str, case: &Case) -> Result<Info, Failure> {
+    if ctx.loose && prop == "C16" {
+        return match case {
+            Case::Oob { raw, f, i, op, v } => exec_oob(ctx, e, raw.0, *f, *i, *op, v.0),
+            Case::Build { .. } => Ok(Info::default()),
+            other => exec_loose(ctx, e, other),
+        };
+    }
     match case {
         Case::Read { raw, f, i, noise, k } => exec_read(ctx, e, raw.0, *f, *i, noise.0, *k),
         Case::Write { raw, f, i, v } => exec_write(ctx, e, raw.0, *f, *i, v.0),
